@@ -212,12 +212,20 @@ func c16Setup(r *Rng) *c16World {
 	// ---- bep3
 	var b3params bep3types.AssetParams
 	var b3sup bep3types.AssetSupplies
+	deputies := make([]int, len(c16B3Denoms))
+	for i := range deputies {
+		deputies[i] = roles[r.Intn(len(roles))]
+		// mostly different deputies for different assets
+		for i > 0 && deputies[i] == deputies[i-1] && !r.Chance(1, 5) {
+			deputies[i] = roles[r.Intn(len(roles))]
+		}
+	}
 	for i, d := range c16B3Denoms {
 		b3params = append(b3params, bep3types.AssetParam{
 			Denom: d, CoinID: int64(714 + i),
 			SupplyLimit:   bep3types.SupplyLimit{Limit: sdkmath.NewInt(350_000_000_000_000), TimeLimited: false, TimeBasedLimit: sdk.ZeroInt(), TimePeriod: time.Hour},
 			Active:        true,
-			DeputyAddress: users[roles[r.Intn(len(roles))]],
+			DeputyAddress: users[deputies[i]],
 			FixedFee:      sdkmath.NewInt(1000), MinSwapAmount: sdk.OneInt(), MaxSwapAmount: sdkmath.NewInt(1_000_000_000_000),
 			MinBlockLock: bep3types.DefaultMinBlockLock, MaxBlockLock: bep3types.DefaultMaxBlockLock,
 		})
